@@ -1,17 +1,17 @@
 //! Execution of one case in one mode (direct / through an `AbiConnection`) and the oracles that
 //! compare the two runs.
 use crate::cases::{model_block, Case};
-use crate::support::*;
+use vabi09fam::support::*;
 use std::collections::BTreeMap;
 use std::panic::{catch_unwind, AssertUnwindSafe};
 use vcommon::serde_json::{json, Map, Value};
 use vcommon::Violation;
 
 pub fn find_trait(name: &str) -> Option<&'static TraitMeta> {
-    crate::family::TRAITS.iter().chain(crate::asyncfam::TRAITS.iter()).find(|t| t.name == name)
+    vabi09fam::family::TRAITS.iter().chain(vabi09fam::asyncfam::TRAITS.iter()).find(|t| t.name == name)
 }
 pub fn all_traits() -> impl Iterator<Item = &'static TraitMeta> {
-    crate::family::TRAITS.iter().chain(crate::asyncfam::TRAITS.iter())
+    vabi09fam::family::TRAITS.iter().chain(vabi09fam::asyncfam::TRAITS.iter())
 }
 
 /// run `f` with the panic hook silenced, returning the panic payload rendered as text
@@ -53,11 +53,24 @@ pub struct ModeRun {
     pub doubles: u32,
 }
 
+/// the panic happens during the call under test (and not in the destructor)
+pub fn call_panics(kind: &str) -> bool {
+    matches!(kind, "static_str" | "formatted_string" | "any" | "callback_static_str")
+}
+pub fn panic_site(kind: &str) -> &'static str {
+    match kind {
+        "none" => "none",
+        "callback_static_str" => "callback",
+        "drop_impl_static_str" => "drop",
+        _ => "method_body",
+    }
+}
 fn panic_code(kind: &str) -> u8 {
     match kind {
         "static_str" => PANIC_STATIC,
         "formatted_string" => PANIC_FORMATTED,
         "any" => PANIC_ANY,
+        "drop_impl_static_str" => PANIC_IN_DROP,
         _ => PANIC_NONE,
     }
 }
@@ -101,7 +114,7 @@ pub fn run_mode(tm: &TraitMeta, mi: usize, case: &Case, abi: bool) -> ModeRun {
     CB_PANIC.with(|c| c.set(false));
     checkpoint("after_call");
     // ---- second phase: stored objects are still callable
-    let mut after = |target: &mut Box<dyn Target>, out: &mut ModeRun, step: &str| {
+    let after = |target: &mut Box<dyn Target>, out: &mut ModeRun, step: &str| {
         count_call();
         match catch(|| target.after(7)) {
             Ok(n) => log(json!({"ev": "after", "n": n})),
@@ -113,14 +126,15 @@ pub fn run_mode(tm: &TraitMeta, mi: usize, case: &Case, abi: bool) -> ModeRun {
     };
     after(&mut target, &mut out, "after");
     checkpoint("after_after");
-    if case.panic != "none" {
-        // ---- the connection stays usable: the same call again, this time without a panic
+    {
+        // ---- the connection stays usable (in particular after a panic): the same call again on
+        //      the same connection, this time without a panic
         cc.next_call();
         count_call();
         match catch(|| target.call(mi, &cc, &case.args)) {
             Ok(v) => log(json!({"ev": "ret", "v": v})),
             Err(p) => {
-                out.later_panics.push(("call_after_panic".into(), p));
+                out.later_panics.push(("second_call".into(), p));
                 log(json!({"ev": "panic"}));
             }
         }
@@ -141,8 +155,14 @@ pub fn run_mode(tm: &TraitMeta, mi: usize, case: &Case, abi: bool) -> ModeRun {
         }
         _ => unreachable!(),
     };
+    // a destructor that panics: directly this is an ordinary (catchable) panic; what the
+    // connection must not do is abort the process. Whether the caller sees the panic is not
+    // compared (AbiProtocol::DropInstance has no way to report back).
+    let drop_target = |t: Box<dyn Target>| {
+        let _ = catch(move || drop(t));
+    };
     if case.order == "conn_first" {
-        drop(target);
+        drop_target(target);
         checkpoint("target_dropped");
         if let Some(e) = teardown("ret") {
             out.later_panics.push(e);
@@ -151,7 +171,7 @@ pub fn run_mode(tm: &TraitMeta, mi: usize, case: &Case, abi: bool) -> ModeRun {
         if let Some(e) = teardown("ret") {
             out.later_panics.push(e);
         }
-        drop(target);
+        drop_target(target);
         checkpoint("target_dropped");
     }
     drop(cc);
@@ -214,6 +234,7 @@ pub fn check_case(tm: &'static TraitMeta, mi: usize, case: &Case, st: &mut Stats
         ("ret_kind", mm.ret.to_string()),
         ("receiver", if mm.recv_mut { "mut" } else { "shared" }.to_string()),
         ("payload", case.panic.clone()),
+        ("panic_site", panic_site(&case.panic).to_string()),
         ("keep", case.keep.to_string()),
         ("order", case.order.clone()),
         ("methods", if n_methods > 64 { "gt64" } else { "le64" }.to_string()),
@@ -279,7 +300,7 @@ pub fn check_case(tm: &'static TraitMeta, mi: usize, case: &Case, st: &mut Stats
     }
     let owned = mm.args.iter().any(|k| arg_kind(k).owned) || ret_kind(mm.ret).owned;
     let is_future = ret_kind(mm.ret).future;
-    let panicking = case.panic != "none";
+    let panicking = call_panics(&case.panic);
     if spilled {
         st.add("nt.spilled_argument_block", 1);
     }
@@ -295,13 +316,13 @@ pub fn check_case(tm: &'static TraitMeta, mi: usize, case: &Case, st: &mut Stats
     if owned {
         st.add("nt.owned_object", 1);
     }
-    if panicking {
+    if case.panic != "none" {
         st.add("nt.panic", 1);
     }
     if is_future {
         st.add("nt.future", 1);
     }
-    if spilled || by_ref || ser_ref || owned || panicking || is_future {
+    if spilled || by_ref || ser_ref || owned || case.panic != "none" || is_future {
         st.add("nontrivial", 1);
     }
 
@@ -350,7 +371,8 @@ pub fn check_case(tm: &'static TraitMeta, mi: usize, case: &Case, st: &mut Stats
             st.add("oc.returned", 1);
         }
         for (step, p) in &abi.later_panics {
-            fail!("stored_objects", &tags, format!("{}: step {} panicked through the connection: {}", label, step, p.chars().take(200).collect::<String>()));
+            let oracle = if step == "second_call" { "second_call" } else { "stored_objects" };
+            fail!(oracle, &tags, format!("{}: step {} panicked through the connection: {}", label, step, p.chars().take(200).collect::<String>()));
         }
     }
     if !direct.later_panics.is_empty() {
